@@ -200,6 +200,34 @@ def dumpState (s : State) (e : Env) (bound : Nat) (addrs : List Nat) : String :=
   "D " ++ globals ++ bals ++ st ++ p2i ++ batches ++ g ++ vst ++ n ++ lk ++ " | " ++
     " | ".intercalate (addrs.map (dumpAddr s e))
 
+/-! ### endpoint table (compared with the contracts' generated ABI) -/
+
+/-- one representative call per endpoint of the model, with the endpoint's real name -/
+def abiCalls : List (String × Call) := [
+  ("addTickets", .addTickets []), ("addTickets", .addTicketsV1 []), ("addTickets", .addTicketsV2 []),
+  ("depositLaunchpadTokens", .deposit), ("setTicketPrice", .setTicketPrice .egld 1),
+  ("setLaunchpadTokensPerWinningTicket", .setPerTicket 1),
+  ("setConfirmationPeriodStartRound", .setConfStart 0), ("setWinnerSelectionStartRound", .setSelStart 0),
+  ("setClaimStartRound", .setClaimStart 0), ("setSupportAddress", .setSupport 0),
+  ("pause", .pause), ("unpause", .unpause), ("confirmTickets", .confirm 0),
+  ("filterTickets", .filter), ("selectWinners", .select), ("claimLaunchpadTokens", .claim),
+  ("claimTicketPayment", .claimPayment), ("addUsersToBlacklist", .blacklist []),
+  ("refundUserTickets", .refundUsers []), ("removeGuaranteedUsersFromBlacklist", .unblacklist []),
+  ("distributeGuaranteedTickets", .distribute), ("setUnlockSchedule", .setSchedule1 0 0 0 0 0),
+  ("setUnlockSchedule", .setSchedule2 []), ("confirmNft", .confirmNft), ("selectNftWinners", .selectNft),
+  ("secondarySelectionStep", .secondary), ("setNftCost", .setNftCost ⟨.egld, 0, 1⟩),
+  ("issueMysterySft", .issueSft), ("createInitialSfts", .createSfts),
+  ("setTransferRole", .setTransferRole none)]
+
+def insertSorted (x : String) : List String → List String
+  | [] => [x]
+  | y :: ys => if x ≤ y then x :: y :: ys else y :: insertSorted x ys
+
+def abiLine (v : Variant) : String :=
+  let items := abiCalls.filterMap (fun (name, c) =>
+    (endpointMeta v c).map (fun m => s!"{name}:{b2s m.ownerOnly}:{b2s m.payable}"))
+  "A " ++ " ".intercalate (items.foldr insertSorted [])
+
 /-! ### driver loop -/
 
 structure DState where
@@ -277,6 +305,10 @@ def handle (d : DState) (line : String) : DState × String :=
     | none => (d, "X no such snapshot")
     | some (_, s) => ({ d with st := some s }, "R restore")
   | "storage" :: _ => (d, "S")
+  | "abi" :: vn :: _ =>
+    match variantOf vn with
+    | some v => (d, abiLine v)
+    | none => (d, "X unknown variant")
   | other :: _ => (d, s!"X unknown op {other}")
 
 partial def loop (h : IO.FS.Stream) (out : IO.FS.Stream) (d : DState) : IO Unit := do
